@@ -10,4 +10,5 @@ cd harness && go build -o ../.build/vcheck ./cmd/vcheck || exit 1
 OVDIR=../.build/overlay; rm -rf "$OVDIR"; mkdir -p "$OVDIR"
 go run ./tools/mkoverlay -repo /repo -out "$OVDIR" -bbolt "$(go list -m -f '{{.Dir}}' go.etcd.io/bbolt)" > ../.build/mkoverlay.log 2>&1 || { cat ../.build/mkoverlay.log; exit 1; }
 GODEBUG=goindex=0 go build -overlay "$OVDIR/overlay.json" -o ../.build/vcheck-i ./cmd/vcheck || exit 1
+go build -race -o ../.build/vcheck-race ./cmd/vcheck || exit 1
 echo "setup ok"
